@@ -52,6 +52,18 @@ def generate(rng, tier, idx, real_set=False):
                 ops.append(o)
     # "...or on how often the object was dumped before": in half of the runs the builds are NOT all dumped before the
     # common mutation, so that slots with and without a dump history are compared afterwards
+    if not real_set and rng.random() < 0.3:
+        # ...nor on whether a write of this object was REFUSED once: the first build is made invalid at one place, its dump is
+        # refused, the value is put back - it holds the same content as its twins again and is written as they are
+        sites = kit.sites(K)
+        if sites:
+            pz, heal = kit.poison(pick(rng, sites))
+            ops.append(pz)
+            d = kit.dump_op(K, rng, 0, main_variant="random")
+            d["path"] = kit.path + ".refused"
+            d.pop("to", None)
+            ops.append(d)
+            ops.append(heal)
     first_cmp = rng.random() < 0.5
     if first_cmp:
         ops.append({"op": "cmp_slots"})
